@@ -53,7 +53,9 @@ def measure(text, kind="plss", config="", warmup=None):
     except Exception:
         _worker = None
         return ("inconclusive", None)
-    deadline = time.time() + WALL_LIMIT_S + (60 if warmup else 0)
+    # a session of n short parses normally costs n x ~0.4 ms; fifteen times that much CPU means the cost per parse creeps up
+    warm_cpu_limit = (warmup["n"] * 0.006 + THRESHOLD_CPU_S) if warmup else None
+    deadline = time.time() + WALL_LIMIT_S + (4 * warm_cpu_limit if warmup else 0)
     while True:
         remaining = deadline - time.time()
         if remaining <= 0:
@@ -67,9 +69,11 @@ def measure(text, kind="plss", config="", warmup=None):
             ans = json.loads(line)
             if "error" in ans:
                 return ("error", ans["error"])
+            if warmup and ans.get("warm_cpu", 0) > warm_cpu_limit:
+                return ("slow", ans["warm_cpu"])
             return ("slow" if ans["cpu"] > THRESHOLD_CPU_S else "ok", ans["cpu"])
         used = (_proc_cpu(_worker.pid) or 0.0) - cpu_before
-        if used > THRESHOLD_CPU_S * 1.5 and not warmup:
+        if used > (THRESHOLD_CPU_S * 1.5 if not warmup else warm_cpu_limit * 1.2):
             break
     used = (_proc_cpu(_worker.pid) or 0.0) - cpu_before
     try:
@@ -78,7 +82,7 @@ def measure(text, kind="plss", config="", warmup=None):
     except Exception:
         pass
     _worker = None
-    if used > THRESHOLD_CPU_S and not warmup:
+    if used > (THRESHOLD_CPU_S if not warmup else warm_cpu_limit):
         return ("slow", used)
     return ("inconclusive", None)
 
@@ -102,7 +106,9 @@ def _worker_main():
     for line in sys.stdin:
         req = json.loads(line)
         wu = req.get("warmup")
+        warm_cpu = 0.0
         if wu:
+            w0 = time.process_time()
             # a long session first: n parses of a short text under the given settings (not timed), then the timed parse
             try:
                 for k in range(int(wu["n"])):
@@ -112,6 +118,7 @@ def _worker_main():
                         pytrs.PLSSDesc(wu["text"].replace("{k}", str(k % 900 + 1)), parse_qq=True, config=wu.get("config") or None)
             except Exception:
                 pass
+            warm_cpu = time.process_time() - w0
         t0 = time.process_time()
         try:
             cfg = req.get("config") or None
@@ -119,7 +126,7 @@ def _worker_main():
                 pytrs.Tract(req["text"], parse_qq=True, config=cfg)
             else:
                 pytrs.PLSSDesc(req["text"], parse_qq=True, config=cfg)
-            out = {"cpu": time.process_time() - t0}
+            out = {"cpu": time.process_time() - t0, "warm_cpu": warm_cpu}
         except Exception as exc:  # the timing property does not judge exceptions (C03 does)
             out = {"cpu": time.process_time() - t0, "exc": type(exc).__name__}
         sys.stdout.write(json.dumps(out) + "\n")
